@@ -777,7 +777,7 @@ func run(c *hl.Ctx) {
 	c.Info("hostile_filler", hostile)
 
 	var tc tierCfg
-	maxLeaves := 3
+	maxLeaves := 2
 	pairLen := 2
 	if c.Quick() {
 		tc = tierCfg{fullB: 4, maxDec: 2, finalMaxDec: 1, finalFullB: 4, splitMaxDec: 1, oneMaxDec: 2}
